@@ -161,9 +161,11 @@ const (
 	specComp
 	genTmo
 	specTmo
+	genInsec
+	specInsec
 )
 
-var envSuffix = [8]string{"ENDPOINT", "ENDPOINT", "HEADERS", "HEADERS", "COMPRESSION", "COMPRESSION", "TIMEOUT", "TIMEOUT"}
+var envSuffix = [10]string{"ENDPOINT", "ENDPOINT", "HEADERS", "HEADERS", "COMPRESSION", "COMPRESSION", "TIMEOUT", "TIMEOUT", "INSECURE", "INSECURE"}
 
 func envName(fam string, i int) string {
 	if i%2 == 0 {
@@ -175,13 +177,14 @@ func envName(fam string, i int) string {
 type expCase struct {
 	Fam, Proto string
 	Opts       []Opt
-	Env        [8]string
+	Env        [10]string
 	Slow       bool
+	Retry      bool
 	Note       string
 }
 
 func (c *expCase) scenario(kind string) Scenario {
-	sc := Scenario{Kind: kind, Fam: c.Fam, Proto: c.Proto, Opts: c.Opts, Env: map[string]string{}, Slow: c.Slow}
+	sc := Scenario{Kind: kind, Fam: c.Fam, Proto: c.Proto, Opts: c.Opts, Env: map[string]string{}, Slow: c.Slow, Retry: c.Retry}
 	for i, v := range c.Env {
 		if v != "" {
 			sc.Env[envName(c.Fam, i)] = v
@@ -221,6 +224,8 @@ func optCoq(o Opt) string {
 		return vgen.App("OCompressor", vgen.HxS(o.S))
 	case "timeout":
 		return vgen.App("OTimeout", vgen.Z(o.D))
+	case "grpcconn":
+		return vgen.App("OGRPCConn", vgen.HxS(fakeSubst(o.S)))
 	}
 	return "OInsecure"
 }
@@ -279,7 +284,7 @@ func (c *expCase) term(res *Result) (string, map[string]any) {
 			env[envName(c.Fam, i)] = v
 		}
 	}
-	desc := map[string]any{"exporter": c.Fam + "/" + c.Proto, "options": c.Opts, "env": env, "slow_collector": c.Slow, "note": c.Note, "observed": od}
+	desc := map[string]any{"exporter": c.Fam + "/" + c.Proto, "options": c.Opts, "env": env, "slow_collector": c.Slow, "default_retry": c.Retry, "note": c.Note, "observed": od}
 	return term, desc
 }
 
@@ -335,7 +340,6 @@ func cycle(site string, pool []string) string {
 
 func buildCase(r *vgen.Rand, fam, proto, focus string, combo [3]int, short int, rep int) *expCase {
 	c := &expCase{Fam: fam, Proto: proto, Note: fmt.Sprintf("focus=%s option=%s specific=%s generic=%s", focus, stName[combo[0]], stName[combo[1]], stName[combo[2]])}
-	c.Opts = append(c.Opts, Opt{K: "insecure"})
 	st := func(setting string) [3]int {
 		if setting == focus {
 			return combo
@@ -359,7 +363,10 @@ func buildCase(r *vgen.Rand, fam, proto, focus string, combo [3]int, short int, 
 		return vgen.Pick(r, pool)
 	}
 	http := proto == "http"
-	pad := func(v string) string { // rarely: white space around an environment value
+	pad := func(v string) string { // rarely: white space around (or instead of) an environment value
+		if r.Chance(1, 60) {
+			return vgen.Pick(r, []string{" ", "\t "})
+		}
 		if r.Chance(1, 25) {
 			return vgen.Pick(r, []string{" ", "\t"}) + v + vgen.Pick(r, []string{"", " "})
 		}
@@ -379,10 +386,30 @@ func buildCase(r *vgen.Rand, fam, proto, focus string, combo [3]int, short int, 
 			default:
 				c.Opts = append(c.Opts, Opt{K: "endpointurl", S: "http://{A}" + vgen.Pick(r, []string{"/o/url", "/u"})})
 			}
-		} else if r.Bool() {
-			c.Opts = append(c.Opts, Opt{K: "endpoint", S: "{A}"})
+			if r.Chance(1, 8) { // outside the uniform statements (judged against the model only): untidy,
+				// relative, blank or empty option paths, a URL option without a path
+				if r.Bool() {
+					c.Opts = append(c.Opts, Opt{K: "urlpath", S: vgen.Pick(r, []string{"custom/", "rel/p", "", " ", " /sp ", "/a/../b", "//x"})})
+				} else {
+					c.Opts[len(c.Opts)-1] = Opt{K: "endpointurl", S: "http://{A}"}
+				}
+			}
 		} else {
-			c.Opts = append(c.Opts, Opt{K: "endpointurl", S: "http://{A}"})
+			switch r.Intn(5) {
+			case 0, 1:
+				c.Opts = append(c.Opts, Opt{K: "endpoint", S: "{A}"})
+			case 2, 3:
+				c.Opts = append(c.Opts, Opt{K: "endpointurl", S: "http://{A}"})
+			default: // a connection the user dialled: wins over every endpoint source
+				c.Opts = append(c.Opts, Opt{K: "grpcconn", S: "{A}"})
+			}
+		}
+		if focus == "endpoint" && r.Chance(1, 10) { // TLS towards a plain-text collector: nobody gets it
+			for i, o := range c.Opts {
+				if o.K == "endpointurl" {
+					c.Opts[i].S = strings.Replace(o.S, "http://", "https://", 1)
+				}
+			}
 		}
 	case stInvalid:
 		c.Opts = append(c.Opts, Opt{K: "endpointurl", S: pickBadURL(r, "A", site("endpoint", "opt"))})
@@ -402,7 +429,11 @@ func buildCase(r *vgen.Rand, fam, proto, focus string, combo [3]int, short int, 
 		} else if r.Chance(1, 4) {
 			p = "/"
 		}
-		c.Env[specEp] = pad("http://{B}" + p)
+		sch := "http://"
+		if focus == "endpoint" && r.Chance(1, 8) {
+			sch = vgen.Pick(r, []string{"https://", "HTTPS://"})
+		}
+		c.Env[specEp] = pad(sch + "{B}" + p)
 	case stInvalid:
 		c.Env[specEp] = pickBadURL(r, "B", site("endpoint", "spec"))
 	}
@@ -414,7 +445,11 @@ func buildCase(r *vgen.Rand, fam, proto, focus string, combo [3]int, short int, 
 		} else if r.Chance(1, 4) {
 			p = "/"
 		}
-		c.Env[genEp] = pad("http://{C}" + p)
+		sch := "http://"
+		if focus == "endpoint" && r.Chance(1, 8) {
+			sch = "https://"
+		}
+		c.Env[genEp] = pad(sch + "{C}" + p)
 	case stInvalid:
 		c.Env[genEp] = pickBadURL(r, "C", site("endpoint", "gen"))
 	}
@@ -547,13 +582,36 @@ func buildCase(r *vgen.Rand, fam, proto, focus string, combo [3]int, short int, 
 				decoys = append(decoys, Opt{K: "compressor", S: map[bool]string{true: "none", false: "gzip"}[o.S == "gzip"]})
 			case "endpoint":
 				decoys = append(decoys, Opt{K: "endpoint", S: "{C}"})
+			case "endpointurl":
+				decoys = append(decoys, Opt{K: "endpointurl", S: "http://{C}/decoy"})
+			case "urlpath":
+				decoys = append(decoys, Opt{K: "urlpath", S: "/decoy/path"})
 			}
 		}
-		c.Opts = append(append([]Opt{c.Opts[0]}, decoys...), c.Opts[1:]...)
+		c.Opts = append(decoys, c.Opts...)
 		c.Note += " +overridden-options"
 	}
+	// transport security: WithInsecure is needed only when no source names an http:// scheme;
+	// otherwise it is passed half of the time (the scheme of the deciding endpoint source must
+	// then do the job).  Rarely the ..._INSECURE variables are set (judged against the model only).
+	plainEnv := strings.HasPrefix(strings.TrimSpace(c.Env[specEp]), "http://") || strings.HasPrefix(strings.TrimSpace(c.Env[genEp]), "http://")
+	if !plainEnv || r.Bool() {
+		c.Opts = append([]Opt{{K: "insecure"}}, c.Opts...)
+	} else {
+		c.Note += " +no-WithInsecure"
+	}
+	if r.Chance(1, 15) {
+		c.Env[genInsec] = vgen.Pick(r, []string{"true", "false", "TRUE", "1", "abc"})
+		if r.Bool() {
+			c.Env[specInsec] = vgen.Pick(r, []string{"true", "false", "False", "yes"})
+		}
+		c.Note += " +INSECURE-variables"
+	}
+	if !c.Slow && focus != "endpoint" && r.Chance(1, 4) {
+		c.Retry = true // the exporter's default retry policy stays on
+	}
 	if r.Chance(1, 6) {
-		rest := c.Opts[1:]
+		rest := c.Opts
 		for i := len(rest) - 1; i > 0; i-- {
 			j := r.Intn(i + 1)
 			rest[i], rest[j] = rest[j], rest[i]
@@ -566,10 +624,19 @@ func buildCase(r *vgen.Rand, fam, proto, focus string, combo [3]int, short int, 
 func corpusExp() []*expCase {
 	ins := Opt{K: "insecure"}
 	var out []*expCase
+	n := 0
 	add := func(fam, proto, note string, env map[int]string, opts ...Opt) {
 		c := &expCase{Fam: fam, Proto: proto, Note: "corpus: " + note, Opts: append([]Opt{ins}, opts...)}
 		for i, v := range env {
 			c.Env[i] = v
+		}
+		// every other entry whose environment names an http:// endpoint runs without WithInsecure:
+		// the scheme of the deciding variable must switch TLS off
+		if strings.HasPrefix(c.Env[specEp], "http://") || strings.HasPrefix(c.Env[genEp], "http://") {
+			if n++; n%2 == 0 {
+				c.Opts = c.Opts[1:]
+				c.Note += " (no WithInsecure)"
+			}
 		}
 		out = append(out, c)
 	}
@@ -607,6 +674,25 @@ func corpusExp() []*expCase {
 			add(fam, proto, "endpoint option equal to the default over both variables", map[int]string{specEp: "http://{B}", genEp: "http://{C}"}, Opt{K: "endpoint", S: dh})
 			add(fam, proto, "timeout option equal to the default over the variables", map[int]string{genEp: "http://{C}", specTmo: "5000", genTmo: "3000"}, Opt{K: "timeout", D: 10e9})
 			add(fam, proto, "upper-case scheme", map[int]string{specEp: "HTTP://{B}", genEp: "http://{C}"})
+			// transport security follows the deciding endpoint source (plain-text collectors: TLS reaches nobody)
+			out = append(out,
+				&expCase{Fam: fam, Proto: proto, Note: "corpus: https specific endpoint over http generic, no WithInsecure: TLS, nobody", Env: [10]string{genEp: "http://{C}", specEp: "https://{B}"}},
+				&expCase{Fam: fam, Proto: proto, Note: "corpus: http specific endpoint over https generic, no WithInsecure", Env: [10]string{genEp: "https://{C}", specEp: "http://{B}"}},
+				&expCase{Fam: fam, Proto: proto, Note: "corpus: https generic endpoint with WithInsecure: the option wins", Env: [10]string{genEp: "https://{C}"}, Opts: []Opt{ins}},
+				&expCase{Fam: fam, Proto: proto, Note: "corpus: WithEndpoint without WithInsecure over an http generic endpoint", Env: [10]string{genEp: "http://{C}"}, Opts: []Opt{{K: "endpoint", S: "{A}"}}},
+				&expCase{Fam: fam, Proto: proto, Note: "corpus: WithEndpoint alone: TLS by default, nobody", Opts: []Opt{{K: "endpoint", S: "{A}"}}},
+				&expCase{Fam: fam, Proto: proto, Note: "corpus: WithEndpointURL(https) after WithInsecure: TLS, nobody", Opts: []Opt{ins, {K: "endpointurl", S: "https://{A}/u"}}},
+				&expCase{Fam: fam, Proto: proto, Note: "corpus: WithInsecure after WithEndpointURL(https)", Opts: []Opt{{K: "endpointurl", S: "https://{A}/u"}, ins}},
+				&expCase{Fam: fam, Proto: proto, Note: "corpus: WithEndpointURL(http) alone over an https specific endpoint", Env: [10]string{specEp: "https://{B}"}, Opts: []Opt{{K: "endpointurl", S: "http://{A}/u"}}},
+				&expCase{Fam: fam, Proto: proto, Note: "corpus: INSECURE=true with an https endpoint (model only)", Env: [10]string{genEp: "https://{C}", genInsec: "true"}},
+				&expCase{Fam: fam, Proto: proto, Note: "corpus: <SIGNAL>_INSECURE=false with an http endpoint (model only)", Env: [10]string{genEp: "http://{C}", specInsec: "false"}},
+			)
+			if proto == "grpc" {
+				out = append(out,
+					&expCase{Fam: fam, Proto: proto, Note: "corpus: WithGRPCConn over both endpoint variables, gzip configured", Env: [10]string{genEp: "http://{C}", specEp: "http://{B}", genComp: "gzip", genHdr: "x-c20-g=gen", genTmo: "3000"}, Opts: []Opt{{K: "grpcconn", S: "{A}"}}},
+					&expCase{Fam: fam, Proto: proto, Note: "corpus: WithGRPCConn and WithEndpoint, WithCompressor(gzip)", Opts: []Opt{{K: "grpcconn", S: "{A}"}, {K: "endpoint", S: "{B}"}, {K: "compressor", S: "gzip"}, ins}},
+				)
+			}
 			add(fam, proto, "specific 'none' over generic gzip", map[int]string{genEp: "http://{C}", specComp: "none", genComp: "gzip"})
 			add(fam, proto, "specific gzip over generic 'none'", map[int]string{genEp: "http://{C}", specComp: "gzip", genComp: "none"})
 		}
@@ -673,8 +759,24 @@ func setIf(m map[string]string, k, v string) {
 	}
 }
 
-func genBSP(r *vgen.Rand) Scenario {
-	sc := Scenario{Kind: "bsp", N: 40, Env: map[string]string{}, IntOpts: map[string]int64{}}
+func genBSP(r *vgen.Rand) (sc Scenario) {
+	sc = Scenario{Kind: "bsp", N: 40, Env: map[string]string{}, IntOpts: map[string]int64{}}
+	defer func() {
+		switch r.Intn(8) {
+		case 0, 1: // through TracerProvider + WithBatcher, real spans
+			sc.Via = "provider"
+		case 2: // dropping (non-blocking) enqueue: only when the queue certainly holds all spans
+			q, hasOpt := sc.IntOpts["queue"]
+			eq := sc.Env["OTEL_BSP_MAX_QUEUE_SIZE"]
+			if (!hasOpt || q >= 64) && (eq == "" || eq == "64" || eq == "512" || eq == "2048" || eq == "4096") {
+				if _, d := sc.Env["OTEL_BSP_SCHEDULE_DELAY"]; !d {
+					sc.Via = "nonblocking"
+				}
+			}
+		case 3:
+			sc.Via = "nilexporter"
+		}
+	}()
 	setIf(sc.Env, "OTEL_BSP_MAX_QUEUE_SIZE", vgen.Pick(r, envInts))
 	setIf(sc.Env, "OTEL_BSP_MAX_EXPORT_BATCH_SIZE", vgen.Pick(r, envInts))
 	if r.Chance(1, 8) { // the boundary of the clamp
@@ -713,7 +815,7 @@ func bspTerm(sc *Scenario, res *Result) (string, bool) {
 	_, d1 := sc.Env["OTEL_BSP_SCHEDULE_DELAY"]
 	_, d2 := sc.IntOpts["delay"]
 	beh := vgen.None
-	if !d1 && !d2 { // the batch timer stays at its 5 s default: batches are cut by size only
+	if !d1 && !d2 && sc.Via != "nilexporter" { // the batch timer stays at its 5 s default: batches are cut by size only
 		beh = vgen.Some(vgen.Pair(vgen.Z(int64(res.MaxBatch)), vgen.Z(int64(res.Total))))
 	}
 	return vgen.App("CBsp", in, cfg, vgen.Z(int64(sc.N)), beh), res.BSP != nil && (res.BSP.Queue != 2048 || res.BSP.Batch != 512)
@@ -754,6 +856,10 @@ func genBLRP(r *vgen.Rand) (Scenario, bool) {
 			sc.IntOpts["buffer"] = vgen.Pick(r, []int64{-1, 0, 3})
 		}
 	} else {
+		switch r.Intn(6) {
+		case 0:
+			sc.Via = "provider"
+		}
 		sc.IntOpts["interval"] = 3600e9
 		_, o := sc.IntOpts["batch"]
 		sc.Probe = o || sc.Env["OTEL_BLRP_MAX_EXPORT_BATCH_SIZE"] != ""
@@ -914,9 +1020,9 @@ func main() {
 		"a case is non-trivial when at least one source of some setting is present (anything but the all-defaults configuration); distinct = distinct Coq case terms"
 
 	type pending struct {
-		j     *job
-		emit  func(res *Result) // adds the Coq case
-		desc  any
+		j    *job
+		emit func(res *Result) // adds the Coq case
+		desc any
 	}
 	var ps []*pending
 	want := func(k string) bool { return *only == "" || strings.Contains(","+*only+",", ","+k+",") }
@@ -927,7 +1033,10 @@ func main() {
 			p.desc = map[string]any{"exporter": c.Fam + "/" + c.Proto, "options": c.Opts, "env": p.j.sc.Env, "note": c.Note}
 			p.emit = func(res *Result) {
 				term, desc := c.term(res)
-				nontriv := len(c.Opts) > 1
+				nontriv := false
+				for _, o := range c.Opts {
+					nontriv = nontriv || o.K != "insecure"
+				}
 				for _, v := range c.Env {
 					nontriv = nontriv || v != ""
 				}
@@ -1019,7 +1128,8 @@ func main() {
 		}
 		bspEmit := func(sc *Scenario, res *Result) {
 			term, nontriv := bspTerm(sc, res)
-			w.Add(term, map[string]any{"component": "bsp", "env": sc.Env, "options": sc.IntOpts, "spans": sc.N, "config": res.BSP, "max_batch": res.MaxBatch, "exported": res.Total}, "sdk-bsp", nontriv)
+			w.Add(term, map[string]any{"component": "bsp", "via": sc.Via, "env": sc.Env, "options": sc.IntOpts, "spans": sc.N, "config": res.BSP, "max_batch": res.MaxBatch, "exported": res.Total}, "sdk-bsp", nontriv)
+			w.Tally("bsp:via=" + sc.Via)
 			if res.BSP == nil {
 				w.Tally("bsp:no-MarshalLog")
 			} else {
@@ -1077,7 +1187,11 @@ func main() {
 		// batch log record processor: every out-of-range timing value once (liveness)
 		for _, name := range []string{"OTEL_BLRP_SCHEDULE_DELAY", "OTEL_BLRP_EXPORT_TIMEOUT"} {
 			for _, v := range blrpDelayVals {
-				addSDK(Scenario{Kind: "blrp", N: 40, Env: map[string]string{name: v}, IntOpts: map[string]int64{}}, "sdk-blrp", func(sc *Scenario, res *Result) {
+				via := ""
+				if len(v)%2 == 0 {
+					via = "nilexporter"
+				}
+				addSDK(Scenario{Kind: "blrp", N: 40, Via: via, Env: map[string]string{name: v}, IntOpts: map[string]int64{}}, "sdk-blrp", func(sc *Scenario, res *Result) {
 					w.Tally("blrp:liveness-only")
 				})
 			}
@@ -1127,11 +1241,19 @@ func main() {
 					w.Tally("blrp:liveness-only")
 					return
 				}
-				w.Add(blrpTerm(sc, res), map[string]any{"component": "blrp", "env": sc.Env, "options": sc.IntOpts, "records": sc.N, "max_chunk": res.MaxBatch, "exported": res.Total, "probe": sc.Probe, "triggered": res.Triggered}, "sdk-blrp",
+				w.Add(blrpTerm(sc, res), map[string]any{"component": "blrp", "via": sc.Via, "env": sc.Env, "options": sc.IntOpts, "records": sc.N, "max_chunk": res.MaxBatch, "exported": res.Total, "probe": sc.Probe, "triggered": res.Triggered}, "sdk-blrp",
 					len(sc.Env) > 0 || len(sc.IntOpts) > 1)
 			})
 		}
 		limitsEmit := func(sc *Scenario, res *Result) {
+			if len(res.EnvLimits) == 6 {
+				var ev []string
+				for _, n := range limitEnvNames {
+					ev = append(ev, vgen.HxS(sc.Env[n]))
+				}
+				w.Add(vgen.App("CEnvLimits", vgen.App("Build_limits_env", ev...), vgen.List(zs(res.EnvLimits))),
+					map[string]any{"component": "NewSpanLimits()", "env": sc.Env, "observed": res.EnvLimits}, "sdk-span-limits-env", len(sc.Env) > 0)
+			}
 			w.Add(limitsTerm(sc, res), map[string]any{"component": "span limits", "env": sc.Env, "options": sc.LimitsOpts, "observed": res.Limits}, "sdk-span-limits", len(sc.Env) > 0 || len(sc.LimitsOpts) > 0)
 		}
 		// corpus: the span-specific variable over the general one, incl. values equal to the defaults
@@ -1152,9 +1274,7 @@ func main() {
 			addSDK(Scenario{Kind: "limits", Env: c}, "sdk-limits", limitsEmit)
 		}
 		for i, n := 0, o.Count(80, 800); i < n; i++ {
-			addSDK(genLimits(r.Fork()), "sdk-limits", func(sc *Scenario, res *Result) {
-				w.Add(limitsTerm(sc, res), map[string]any{"component": "span limits", "env": sc.Env, "options": sc.LimitsOpts, "observed": res.Limits}, "sdk-span-limits", len(sc.Env) > 0 || len(sc.LimitsOpts) > 0)
-			})
+			addSDK(genLimits(r.Fork()), "sdk-limits", limitsEmit)
 		}
 		for i, n := 0, o.Count(60, 600); i < n; i++ {
 			addSDK(genLogLimits(r.Fork()), "sdk-loglimits", func(sc *Scenario, res *Result) {
